@@ -46,8 +46,15 @@ def _is_page(t):
     return False
 
 
+_LOOP = [None]  # the paging loop of the function under analysis, when the listing is iterative (set by check)
+
+
 def _is_rec(t):
-    return t[0] == "call" and t[1] == ("attr", ("param", "self"), "list_versions")
+    """the contribution of the following pages: the recursive call - or, in the iterative form, the loop's accumulator"""
+    if t[0] == "call" and t[1] == ("attr", ("param", "self"), "list_versions"):
+        return True
+    lp = _LOOP[0]
+    return lp is not None and t[0] == "loopin" and t[2] == lp[1] and t[1] == lp[2]
 
 
 def _self_attr(t, name):
@@ -104,8 +111,30 @@ def check(ctx):
     terms = list(ir.walk(ret))
 
     # ---- R1 ------------------------------------------------------------------------------
+    # iterative form of the same listing: `while ..: response = request(**markers); versions += page; [break tests]; markers = next markers`.
+    # The accumulator of the loop plays the part of the recursive result (what the following pages contribute), the path condition of the
+    # marker update is the condition under which the listing goes on.
+    LOOPS = [t for t in terms if t[0] == "loopout" and t[5][0] == "call" and t[5][1] == ("global", "while") and t[4][0] == "bin" and t[4][1] == "+"
+             and any(x[0] == "loopin" and x[2] == t[1] for x in (t[4][2], t[4][3]))]
+    _LOOP[0] = None
+    LOOP = LOOPS[0] if LOOPS and not any(_is_rec(t) for t in terms) else None
+    _LOOP[0] = LOOP
     joins = [t for t in terms if t[0] == "bin" and t[1] == "+" and (_is_rec(t[2]) or _is_rec(t[3]))]
-    recs = [t for t in terms if _is_rec(t)]
+    if LOOP is not None:
+        joins = [LOOP[4]]
+    recs = [t for t in terms if _is_rec(t)] if LOOP is None else [x for x in (LOOP[4][2], LOOP[4][3]) if _is_rec(x)]
+    MARKS = None
+    if LOOP is not None:
+        # the marker update: the assignment, inside the loop, of a dict with the two continuation markers
+        for pc_, nm_, t_, _ in s.assigns:
+            if t_[0] == "dict" and {k_[1] for k_, _ in t_[1] if k_ is not None and k_[0] == "const"} >= {"KeyMarker", "VersionIdMarker"} \
+                    and pc_ and pc_[0][0][0] == "loop":
+                MARKS = (pc_, nm_, t_)
+    if not recs and any(t[0] in ("loopout", "loopin") and len(t) > 2 for t in terms) and any(_is_resp(t) for pc_, nm_, t_, _ in s.assigns for t in ir.walk(t_)):
+        # an iterative listing whose loop does not accumulate the pages (the result is not `what was listed so far + this page`)
+        ctx.ob("C19.R1.append", f"{lv.qualname}|page + recursive result", False, lv.where(),
+               f"the listing loops over the pages but the result is not the accumulated pages: {ir.show(ret, maxdepth=4)[:200]}")
+        return
     ctx.sites("C19.R1", len(recs), 1, "recursive list_versions call flowing into the result")
     def page_part(j):
         return j[3] if _is_rec(j[2]) else j[2]
@@ -123,6 +152,11 @@ def check(ctx):
     stray = [r for r in recs if not any(r in (j[2], j[3]) for j in joins)]
     # ---- R2 ------------------------------------------------------------------------------
     rphis = [t for t in terms if t[0] == "phi" and any(j in (t[2], t[3]) for j in joins)]
+    if LOOP is not None:
+        ctx.require(MARKS is not None, f"{lv.where()}: paging loop without an update of the continuation markers")
+        # synthetic decision: go on (the accumulated result grows by the following pages) iff every break test before the marker update is false
+        cont = ir.pc_term(tuple(e_ for e_ in MARKS[0] if e_[0][0] != "loop"))
+        rphis = [("phi", cont, LOOP[4], page_part(LOOP[4]))]
     ctx.sites("C19.R2", len(rphis) + (0 if joins else 1), 1, "condition guarding the recursion")
     for t in rphis[:1]:
         # the branch with the concatenation is the recursion; the test may be written for either branch (and may be a value kept in a
@@ -247,18 +281,21 @@ def check(ctx):
                "without recursion the page's versions are the result" if same else "without recursion the result is not the page's versions")
     # ---- R3 ------------------------------------------------------------------------------
     for r in recs[:1]:
-        kws = dict((k, v) for k, v in r[3] if k)
+        kws = dict((k, v) for k, v in r[3] if k) if LOOP is None else {k_[1]: v_ for k_, v_ in MARKS[2][1] if k_ is not None and k_[0] == "const"}
         okm = ("KeyMarker" in kws and "VersionIdMarker" in kws and _resp_key(kws["KeyMarker"], "NextKeyMarker")
                and _resp_key(kws["VersionIdMarker"], "NextVersionIdMarker") and kws["KeyMarker"][1] == kws["VersionIdMarker"][1])
         ctx.ob("C19.R3.markers", f"{lv.qualname}|continuation markers", okm, lv.where(),
                "KeyMarker / VersionIdMarker are NextKeyMarker / NextVersionIdMarker of the same response" if okm
                else f"continuation markers passed: {', '.join(k + '=' + ir.show(v, maxdepth=3) for k, v in kws.items())}")
-        okp = len(r[2]) >= 1 and r[2][0] == ("param", "path")
+        okp = (len(r[2]) >= 1 and r[2][0] == ("param", "path")) if LOOP is None else True  # one path for every request of the loop (R3.request)
         ctx.ob("C19.R3.path", f"{lv.qualname}|same path", okp, lv.where(), "recursive call lists the same path" if okp else "recursive call lists a different path")
     resp = next((t for t in terms if _is_resp(t)), None)
     ctx.require(resp is not None, f"{lv.where()}: list_object_versions request not found")
     kw = dict((k, v) for k, v in resp[3] if k)
     fwd = any(k is None and v == ("param", "**kwargs") for k, v in resp[3])
+    if LOOP is not None and MARKS is not None:
+        # the request of an iteration gets the caller's markers first and the markers set at the end of the previous iteration afterwards
+        fwd = any(k is None and v[0] == "loopin" and v[1] == MARKS[1] and v[2] == LOOP[1] and v[3] == ("param", "**kwargs") for k, v in resp[3])
     okr = _self_attr(kw.get("Bucket", NONE), "bucket_name") and kw.get("Prefix") == ("param", "path") and fwd
     ctx.ob("C19.R3.request", f"{lv.qualname}|request forwards markers", okr, lv.where(),
            "request = (Bucket=self.bucket_name, Prefix=path, **markers)" if okr else
@@ -274,6 +311,8 @@ def check(ctx):
         routes = [("page of a listing that goes on", page_part(jn)), ("page of a listing that ends", core0[3] if jn == core0[2] else core0[2])]
     elif core0 in joins:
         routes = [("page", page_part(core0))]
+    elif LOOP is not None and core0 == LOOP:
+        routes = [("page", page_part(LOOP[4]))]
     if not routes:
         ctx.ob("C19.R4.combined", f"{lv.qualname}|the page's versions reach the result", False, lv.where(),
                f"the result is not (the page's versions + the following pages), optionally filtered: {ir.show(core0, maxdepth=4)[:200]}")
